@@ -66,11 +66,12 @@ type dayAcc struct {
 	nMinC1                                              float64
 	nPesum, nNfixsum, nAufna1                           float64
 	nAkf                                                int
-	nUnstable                                           bool
+	nUnstable, nUnstableEarly                           bool
 }
 
 var prevDayEndC1 = math.NaN()
 var prevDayEndCnt [3]float64
+var unstableDays, unstableEarlyDays int
 var prevDayEndZeit = -1
 var prevDayEndStorage = math.NaN()
 var prevDayEndGRW = math.NaN()
@@ -258,6 +259,9 @@ func traceLine(work, line string, lineNo int, r *rng, waterEvery int) {
 			}
 			if g.C1NotStable != "" {
 				nday.nUnstable = true
+				if subd < day.steps {
+					nday.nUnstableEarly = true
+				}
 			}
 			if nitroEvery > 0 && subd == day.steps && g.BART[0][0] != 'H' && r.intn(nitroEvery*2) == 0 {
 				gg := *g
@@ -336,6 +340,17 @@ func traceLine(work, line string, lineNo int, r *rng, waterEvery int) {
 						oracleFail("n-balance-gain line=%d zeit=%d steps=%d residual=%g", lineNo, zeit, day.steps, res)
 					}
 				}
+				// C02 "instability flag": a sub-step whose transport raised the per-step flag marks the run (the flag that is
+				// reported with the crop results), whichever sub-step of the day it was
+				if nday.nUnstable && g.C1NotStableErr == "" {
+					oracleFail("instability-flag-lost line=%d zeit=%d steps=%d", lineNo, zeit, day.steps)
+				}
+				if nday.nUnstable {
+					unstableDays++
+					if nday.nUnstableEarly {
+						unstableEarlyDays++
+					}
+				}
 				// nothing lives below the profile: mineral N of the array cells beyond layer N stays zero
 				for i := g.N; i < len(g.C1); i++ {
 					if g.C1[i] != 0 {
@@ -404,5 +419,5 @@ func traceLine(work, line string, lineNo int, r *rng, waterEvery int) {
 	}
 	res := runProject(work, splitArgs(line))
 	hermes.VerifProbe = nil
-	emit(jobj{"k": "run", "line": lineNo, "success": res.Success, "err": res.Err, "days": days, "substeps": sub, "file_irrigations_checked": irrSeen})
+	emit(jobj{"k": "run", "line": lineNo, "success": res.Success, "err": res.Err, "days": days, "substeps": sub, "file_irrigations_checked": irrSeen, "unstable_days": unstableDays, "unstable_early_days": unstableEarlyDays})
 }
